@@ -70,6 +70,7 @@ def gen_queries(rng, n):
 
 def small_dataset():
     ds = gen.gen_dataset(gen.Rng(11), dict(gen.PROFILES["opt"], base=10))
+    ds.scens = [sc for sc in ds.scens if sc[0] != 4]               # the generator's own fourth scenario is replaced by
     ds.scens.append((4, [[], [], [], [], [], [], [], [], []]))     # a scenario without services: EMPTY_SCENARIO
     return ds
 
@@ -124,7 +125,10 @@ def main(pid, tier, seed, replay_path=None):
     with open(case, "w") as f:
         f.write(l3batch_norm(ds).text())
         for (kind, lst, dups) in queries:
-            vs = [lst]
+            # SimpleWeb hands the query to the handler as an unordered multimap: the ORDER in which the factory meets the
+            # parameters is unspecified, and the first defect it meets decides the error code.  Every parameter is therefore
+            # also tried in front position; the HTTP answer must be the model's answer for one of these orders.
+            vs = [lst] + [[lst[j]] + lst[:j] + lst[j + 1:] for j in range(1, len(lst))]
             for (k, v) in dups:
                 vs = [x + [(k, v)] for x in vs] + [[(k, v)] + x for x in vs]
             variants.append(vs)
